@@ -8,6 +8,7 @@ CONSTANTS
   MaxSend = 7
   FineTime = TRUE
   SlowWrites = TRUE
+  SlowRtx = "no"
   FailAts = {0, 1, 2, 7}
   MaxDepth = 7
 CONSTRAINT DepthBound
